@@ -242,8 +242,8 @@ fn main() {
     }
     let thorough = ctx.thorough();
     ctx.rule("hann: every f32 phase in [0,1] (thorough) / 2^21-point bit-pattern grid (quick), f64 grid of 2^20 (quick) / 2^24 (thorough) points plus 1-ulp neighbourhoods of 0, 1/4, 1/2, 3/4, 1: |w - 0.5(1-cos 2 pi p)| <= 4 eps, 0<=w<=1, symmetry, special points; rectangle == 1 on the same grids");
-    ctx.rule("Window iterator: n = 2..=64 (quick) / 2..=1024 (thorough), both windows, frames f64 / [f32;2] / [i16;2]: i-th value == window(i/(n-1)) within n*eps");
-    ctx.rule("Windower: every (L in 0..=24 (thorough 0..=40), bin 2..=L+2, hop 1..=L+2) x {hann, rectangle} x {f64, [f32;2], [i16;2]}: chunk count == floor((L-b)/h)+1 if L>=b else 0, chunk k frame i == frames[k*h+i] scaled by window(i/(b-1)), size_hint().0 <= remaining <= size_hint().1 before every next(); non-trivial = at least one chunk, distinct by (window, format, L, b, h)");
+    ctx.rule("Window iterator: n = 2..=64 (quick) / 2..=1024 (thorough) and 100, 257, 1000, 4096, 65535, 65536, 65537, both windows, frames f64 / [f32;2] / [i16;2]: i-th value == window(i/(n-1)) within n*eps");
+    ctx.rule("Windower: every (L in 0..=24 (thorough 0..=40), bin 2..=L+2, hop 1..=L+2) x {hann, rectangle} x {f64, [f32;2], [i16;2]}: chunk count == floor((L-b)/h)+1 if L>=b else 0, chunk k frame i == frames[k*h+i] scaled by window(i/(b-1)), size_hint().0 <= remaining <= size_hint().1 before every next(); non-trivial = at least one chunk, distinct by (window, format, L, b, h); scale probes: slices of 100, 257, 1000 and of 65535, 65536, 65537 frames with structured (bin, hop)");
 
     // ---- hann / rectangle at every phase
     let one = 1.0f32.to_bits();
@@ -313,7 +313,7 @@ fn main() {
     // ---- Window iterator
     let nmax = ctx.tier.pick(64, 1024);
     for kind in ["hann", "rectangle"] {
-        for n in 2..=nmax {
+        for n in (2..=nmax).chain([100usize, 257, 1000, 4096, 65535, 65536, 65537].into_iter().filter(|&n| n > nmax)) {
             let case = json!({"sys":"window_iter","kind":kind,"n":n});
             let _guard_scope = guard::scoped(&case.to_string());
             evals.fetch_add(1, Relaxed);
@@ -345,6 +345,23 @@ fn main() {
             for l in [100usize, 257, 1000] {
                 for b in [2usize, 3, 64, l / 2, l - 1, l, l + 1] {
                     for h in [1usize, 2, b.saturating_sub(1).max(1), b, b + 1, l / 3 + 1, l, l + 5] {
+                        cases.push((kind, fmt, l, b, h));
+                    }
+                }
+            }
+        }
+    }
+    // 16-bit boundary: slices of 2^16 +- 1 frames; (bin, hop) chosen so that chunks x bin stays small
+    for kind in ["hann", "rectangle"] {
+        for fmt in ["f64", "[i16;2]"] {
+            for l in [65535usize, 65536, 65537] {
+                for b in [2usize, 3, 64] {
+                    for h in [1usize, 2, b, b + 1, 255, 256, l / 3 + 1, l, l + 5] {
+                        cases.push((kind, fmt, l, b, h));
+                    }
+                }
+                for b in [l / 2, l - 1, l, l + 1] {
+                    for h in [l / 3 + 1, l / 2, b, b + 1, l, l + 5] {
                         cases.push((kind, fmt, l, b, h));
                     }
                 }
